@@ -367,75 +367,46 @@ pub fn equality_leaves<N: Nondet, const NEGATE: bool, const LT: usize, const RT:
 
 // ------------------------------------------------------------------------------------------- C16
 
-/// A list of n = 0..3 items over {number, symbol, pair keyed by a symbol, pair keyed by a number, nested list},
-/// keys distinct; the instruction I (Access / Apply / AccessLengthInternal) with a symbolic index or symbol.
-/// CONCAT: the left operand is the concatenation (first n1 items) <> (remaining items) instead of one list.
-pub fn list_semantics<N: Nondet, const I: usize, const CONCAT: bool>(n: &mut N) {
+/// C16: a list with a CONCRETE arrangement of items (SHAPE) over {number v, symbol s0, pair p0 keyed by k0, pair p1
+/// keyed by k1, pair pn keyed by a number, nested list} - keys k0 != k1 symbolic u64 - and the instruction I
+/// (Access / Apply / AccessLengthInternal) with a SYMBOLIC integer index or symbol. SPLIT < 4: the left operand is
+/// the concatenation (first SPLIT items) <> (remaining items) instead of one list.
+pub fn list_semantics<N: Nondet, const I: usize, const SHAPE: u8, const SPLIT: usize, const BY_SYMBOL: bool>(n: &mut N) {
     let instr = ALL_INSTRUCTIONS[I];
     let mut d: SD = BoundedData::new();
-    // candidate items
-    let (k0, k1, k2) = (n.u64(), n.u64(), n.u64());
-    n.assume(k0 != k1 && k0 != k2 && k1 != k2);
-    let v = d.add_number(SimpleNumber::Integer(n.i32())).unwrap(); // 0
-    let s0 = d.add_symbol(k0).unwrap(); // 1
-    let s1 = d.add_symbol(k1).unwrap(); // 2
-    let p0 = d.add_pair((s0, v)).unwrap(); // 3  keyed k0
-    let p1 = d.add_pair((s1, s0)).unwrap(); // 4  keyed k1
-    let pn = d.add_pair((v, s1)).unwrap(); // 5  keyed by a number
-    let inner = d.add_list_direct(&[v]); // 6  nested list
-    let cands = [v, s0, p0, p1, pn, inner];
-    let len = n.usize_below(4);
-    let mut items = [0usize; 3];
-    let mut i = 0;
-    while i < 3 {
-        items[i] = cands[n.usize_below(6)];
-        i += 1;
-    }
-    // keyed pairs occur at most once each (distinct symbols)
-    let count = |x: usize| (len > 0 && items[0] == x) as usize + (len > 1 && items[1] == x) as usize + (len > 2 && items[2] == x) as usize;
-    n.assume(count(p0) <= 1 && count(p1) <= 1);
-    let left = if CONCAT {
-        let n1 = n.usize_below(4);
-        n.assume(n1 <= len);
-        // two lists sharing the item pool: [0..n1) and [n1..len)
-        d.items[d.n_items] = items[0];
-        d.items[d.n_items + 1] = items[1];
-        d.items[d.n_items + 2] = items[2];
-        let base = d.n_items;
-        d.n_items += 3;
-        let mut a = Cell::of(T::List);
-        a.a = base;
-        a.b = n1;
-        let la = d.push_cell(a).unwrap();
-        let mut b = Cell::of(T::List);
-        b.a = base + n1;
-        b.b = len - n1;
-        let lb = d.push_cell(b).unwrap();
-        d.add_concatenation(la, lb).unwrap()
-    } else {
-        d.items[d.n_items] = items[0];
-        d.items[d.n_items + 1] = items[1];
-        d.items[d.n_items + 2] = items[2];
-        let mut a = Cell::of(T::List);
-        a.a = d.n_items;
-        a.b = len;
-        d.n_items += 3;
-        d.push_cell(a).unwrap()
+    let (k0, k1) = (n.u64(), n.u64());
+    n.assume(k0 != k1);
+    let v = d.add_number(SimpleNumber::Integer(n.i32())).unwrap();
+    let s0 = d.add_symbol(k0).unwrap();
+    let s1 = d.add_symbol(k1).unwrap();
+    let p0 = d.add_pair((s0, v)).unwrap();
+    let p1 = d.add_pair((s1, s0)).unwrap();
+    let pn = d.add_pair((v, s1)).unwrap();
+    let inner = d.add_list_direct(&[v]);
+    let (items, len): ([usize; 3], usize) = match SHAPE {
+        0 => ([0, 0, 0], 0),
+        1 => ([v, 0, 0], 1),
+        2 => ([p0, p1, 0], 2),
+        3 => ([v, p0, s0], 3),
+        4 => ([p1, pn, p0], 3),
+        _ => ([inner, p0, 0], 2),
     };
-    // right operand: an index (integer) or a symbol (one of the keys, or another one)
-    let by_symbol = n.bool();
+    let left = if SPLIT < 4 {
+        let a = d.add_list_direct(&items[..SPLIT]);
+        let b = d.add_list_direct(&items[SPLIT..len]);
+        d.add_concatenation(a, b).unwrap()
+    } else {
+        d.add_list_direct(&items[..len])
+    };
+    // the kind of the right operand is concrete per harness (a symbolic type tag makes every dispatch arm reachable for symex)
+    let by_symbol = BY_SYMBOL;
     let idx = n.i32();
     let key = n.u64();
     let right = if by_symbol { d.add_symbol(key).unwrap() } else { d.add_number(SimpleNumber::Integer(idx)).unwrap() };
     let unary = instr == Instruction::AccessLengthInternal;
     let mut s = if unary { finish(n, d, &[left], instr) } else { finish(n, d, &[left, right], instr) };
-    if instr == Instruction::Apply && CONCAT {
-        // Apply defines no lookup on a concatenation; only Access is claimed there
-        return;
-    }
     let res = execute_current_instruction(&mut s.d);
-    gv_cover!(len == 3, "three items");
-    gv_cover!(len == 0, "empty list");
+    gv_cover!(true, "reached");
     pa!("C16", ran_ok(res));
     pa!("C06", s.d.regs[0] == s.sentinel && s.d.cursor == 1);
     pa!("C16", s.d.n_calls == 0);
@@ -443,7 +414,7 @@ pub fn list_semantics<N: Nondet, const I: usize, const CONCAT: bool>(n: &mut N) 
     if unary {
         pa!("C16", s.d.cells[t].tag == T::Number);
         match s.d.cells[t].num {
-            SimpleNumber::Integer(v) => pa!("C16", v as usize == len),
+            SimpleNumber::Integer(x) => pa!("C16", x as usize == len),
             _ => pa!("C16", false),
         }
     } else if by_symbol {
